@@ -1,3 +1,4 @@
+import Lm.Inst.CoreTie
 import Lm.Inv.CoreSafe
 import Lm.Inv.CoreGuards
 /-! # C02 — Pub/sub: each accepted message reaches exactly its eligible recipients, once
@@ -88,5 +89,11 @@ theorem C02_nobody_eligible_released_at_once (s : St) (m r : ModId) (md : Mod) (
   rw [C02_not_eligible_no_effect _ _ _ r md (by rw [hn]; exact hr) h]
   unfold holderUnref newHolder
   simp [St.emit, hl]
+
+
+/-- tie A: the guard prefixes of the entry points this property is about, re-extracted from the source on every run,
+are the ones the model transcribes (`Lm.Inst.CoreTie`) -/
+theorem C02_guards_in_source :
+    Lm.Inst.CoreTie.slice Lm.Generated.CoreGuards.guards ["m_mod_ps_tell", "m_mod_ps_publish", "send_msg"] = Lm.Inst.CoreTie.slice Lm.Inst.CoreTie.expected ["m_mod_ps_tell", "m_mod_ps_publish", "send_msg"] := by decide
 
 end Lm.Props.C02
